@@ -56,6 +56,14 @@ CHECKS.update({
    technique='deterministic simulation: seeded append / access / copy / fork histories on Branch judged after every operation by the symbols actually occurring on each live branch (R5); step monitor on whole proofs for witness-introducing rules',
    text='Seeded histories (<=10 ops, 7-constant pool with subscripts, worlds in sentence and access nodes, copies and forks extended independently) with the freshness invariant checked on every live branch after every operation; in whole proofs (biased to quantifier/modal/serial witnesses, constants in mixed first-appearance order) every constant or world introduced by a ticking quantifier/modal rule or the serial rule must be new to the branch.',
    note='Histories and proofs are sampled.'),
+ 'C13': dict(engine='parsesim', level='exploration', ref='DESIGN.md §6 C13',
+   technique='deterministic simulation: seeded parse histories on long-lived parsers with input faults (truncate, flip, insert, foreign characters, delete, duplicate span, stray parenthesis, swapped variable) and sliced exhaustive short strings; per-parse oracle = exception type, deterministic trace-event budget, structural well-formedness walker, fresh twin parser with the prior declarations',
+   text='Long-lived Polish and standard parsers (auto_preds, drop_parens, empty / declared / frozen stores) receive histories of valid, fault-mutated, random and exhaustively short inputs; each parse must return a closed, non-vacuous, arity-correct sentence or raise ParseError within a deterministic event budget, and must equal the result of a fresh twin parser carrying the declarations as they were before the call. Inputs and histories are sampled (strings <= 3 characters are enumerated across the runs of a batch).',
+   note='The twin defines history-independence exactly as the statement does (same string, same declarations).'),
+ 'C14': dict(engine='lexsim', level='exploration', ref='DESIGN.md §6 C14',
+   technique='deterministic simulation: seeded construction / rebuild / copy / pickle / comparison / mutation-attempt histories under per-run cache sizes with eviction faults, judged against structural tuples and against a fault-free twin execution (large cache) of the same history',
+   text='Histories of 30-160 operations over all nine lexical types and Argument (system predicates over-represented; open, vacuous and re-bound quantified items included) run under cache sizes 1..1000 with eviction faults placed at random and between taking an ident/spec and rebuilding from it; equality <=> structural identity, hash, one total order with type rank first, rebuild/copy/pickle equality and immutability are checked per operation, and the whole observation log must equal that of the large-cache twin.',
+   note='Cache size 0 is unsupported by the package (import fails) and not judged.'),
 })
 
 NOT_APPLICABLE = {
